@@ -162,6 +162,22 @@ Theorem C15_from_dict_params_only : forall ds1 ds2,
 Proof. exact from_dict_params_only. Qed.
 Print Assumptions C15_from_dict_params_only.
 
+(** Exactly which definitions are accepted: those with only keyword-only functions, no parameter that is no variable, no
+    variable that is its own parameter, no variable unrelated to every other, no cycle of "is a named parameter of" — the
+    property's four refusals and their converse, on the definitions.   Example: [ex_accept_defs_hyps]. *)
+Theorem C15_from_dict_accepts_iff : forall ds,
+  (exists r, from_dict ds = FOk r) <->
+  ~ bad_signature ds /\ ~ unknown_param ds /\ ~ self_param ds /\ ~ isolated_def ds /\ ~ cyclic_defs ds.
+Proof. exact from_dict_accepts_iff. Qed.
+Print Assumptions C15_from_dict_accepts_iff.
+
+(** Every refusal names a defect of the definitions; never the key-set check, never a model artefact.   Example: [ex_cyclic_defs]. *)
+Theorem C15_from_dict_error_meaning : forall ds e, from_dict ds = FErr e ->
+  (e = FSignature /\ bad_signature ds) \/ (e = FDag EUnknownRef /\ unknown_param ds) \/ (e = FDag ESelfLoop /\ self_param ds) \/
+  (e = FDag EIsolated /\ isolated_def ds) \/ (e = FDag ENotDag /\ cyclic_defs ds).
+Proof. exact from_dict_error_meaning. Qed.
+Print Assumptions C15_from_dict_error_meaning.
+
 (** The key-set check: the constructor refuses (before looking at any edge) exactly when [variables.keys()] and
     [direct_ancestors.keys()] differ — a name that is only a key of one of them is never silently added or dropped —
     and [from_dict] can never trip it.   Example: [ex_ctor_keys_missing], [ex_ctor_keys_extra], [ex_ctor_keys_ok]. *)
